@@ -26,7 +26,7 @@ PROFILES = [
     dict(),
     dict(helpers=3, helper_ctx_prob=0.6, helper_chain=True, w_call=3, mutate_helper_prob=0.5),
     dict(w_with=6, computed_ctx_prob=0.3, as_alias_prob=0.3, w_early_return=2.5, w_for=4, w_while=2, max_depth=4, return_in_arm_prob=0.25),
-    dict(w_alias=3, w_index_assign=4, w_listdef=3, const_list_prob=0.2, w_tuple=2, nested_lists=True, w_for=4),
+    dict(w_alias=3, w_index_assign=4, w_listdef=3, const_list_prob=0.2, w_tuple=2, nested_lists=True, w_for=4, comp_iter_ifexpr_prob=0.5, w_tuplelist=1, reduce_prob=0.15, comp_target_shadows_prob=0.3),
     dict(w_const=3, w_freevar=1.5, w_copy=2, w_aug=3, expr_depth=4),
 ]
 ARGS = [('R', 'R', 'L'), ('R', 'L'), ('R', 'R'), ('R', 'B', 'L'), ('L', 'L', 'R'), ('R', 'I', 'L'), ('I', 'R', 'R'), ('R', 'T', 'L'), ('R', 'LL')]
